@@ -54,7 +54,13 @@ _MOLS = {}
 MOL_SPECS = {
     "H2": dict(xyz=XYZ_H2, q=0, spin=0),
     "H2_triplet": dict(xyz=XYZ_H2, q=0, spin=2),
-    "H2_uhf": dict(xyz=XYZ_H2_STRETCH, q=0, spin=0, uhf=True),
+    "H2_uhf": dict(xyz=XYZ_H2_STRETCH, q=0, spin=0, uhf=True),          # UHF, spin 0, identical alpha/beta active spaces
+    "H2eq_uhf": dict(xyz=XYZ_H2, q=0, spin=0, uhf=True),
+    "H2_cation": dict(xyz=XYZ_H2, q=1, spin=1),                          # ROHF open shell, 4 qubits
+    "H2_anion": dict(xyz=XYZ_H2, q=-1, spin=1),
+    "H2_cation_uhf": dict(xyz=XYZ_H2, q=1, spin=1, uhf=True),            # UHF open shell, 4 qubits
+    "H2_anion_uhf": dict(xyz=XYZ_H2, q=-1, spin=1, uhf=True),
+    "H4_cation_uhf": dict(xyz=XYZ_H4, q=1, spin=1, uhf=True),
     "H4": dict(xyz=XYZ_H4, q=0, spin=0),
     "H4_cation": dict(xyz=XYZ_H4, q=1, spin=1),
     "H4_triplet": dict(xyz=XYZ_H4, q=0, spin=2),
@@ -88,11 +94,12 @@ class Inst:
     """One ansatz configuration.  make() returns a NEW, unbuilt object (ops: ADAPT operator indices)."""
 
     def __init__(self, name, family, variant, make, zero_ref=False, unit_cands=None, tier="quick", weight=1.0,
-                 adapt=False, pool=None, ring=False, big=False, occ=None):
+                 adapt=False, pool=None, ring=False, big=False, occ=None, reftype=False):
         self.name, self.family, self.variant, self._make = name, family, variant, make
         self.zero_ref, self.tier, self.weight = zero_ref, tier, weight
         self.unit_cands = unit_cands or [PI / 2, PI, 2 * PI, 4 * PI, 8 * PI]
         self.adapt, self.pool, self.ring, self.big = adapt, pool, ring, big
+        self.reftype = reftype    # ansatz with code paths that depend on the reference type (RHF / ROHF / UHF, spin)
         self.occ = occ            # ("jw", molecule name, up_then_down) | ("jw4",) | ("hcb", molecule name): independent HF occupation
         self._units = {}
         self._fresh = {}
@@ -315,11 +322,20 @@ def replay_history(inst, H, mode, smap_kind, rng, book, out, hid, smap_override=
     """Replays behaviour H (record exported by C07AnsatzLifecycle) on a real object of `inst`.
     Appends events to out["events"]; jobs go to `book`."""
     M = M_CLIFF if mode == "clifford" else M_RING
+    smap_kind, _, unit_mode = smap_kind.partition("|")      # "mod|uniform": one common unit for all parameters
     steps = H["steps"]
     ops = list(H.get("ops0") or []) if inst.adapt else None
+
+    def pick_units(us):
+        us = [u if u else inst.unit_cands[0] for u in us]
+        if unit_mode == "uniform" and us:
+            # the largest per-parameter unit is on the carrier for every parameter: a mix-up of parameters
+            # (wrong generator, wrong offset) then still produces angles the exact engines can judge
+            us = [max(us)] * len(us)
+        return us
     obj = inst.make(ops)
     nslots = H["nslots"]
-    case_base = {"inst": inst.name, "mode": mode, "smap_kind": smap_kind, "href": href}
+    case_base = {"inst": inst.name, "mode": mode, "smap_kind": smap_kind + ("|" + unit_mode if unit_mode else ""), "href": href}
     smap = None
     if not inst.adapt:
         n_real = inst.npar()
@@ -328,7 +344,7 @@ def replay_history(inst, H, mode, smap_kind, rng, book, out, hid, smap_override=
         case_base["smap"] = smap
         if any(u is None for u in units):
             out["offgrid_params"] = out.get("offgrid_params", 0) + 1
-            units = [u if u else inst.unit_cands[0] for u in units]
+        units = pick_units(units)
 
     acc_real = []     # accepted (or attempted, for a call that raised) real parameter vectors
 
@@ -342,7 +358,7 @@ def replay_history(inst, H, mode, smap_kind, rng, book, out, hid, smap_override=
         a, post = st["a"], st["post"]
         out["steps"] += 1
         if inst.adapt:
-            units = units_for(inst, mode, ops)
+            units = pick_units(units_for(inst, mode, ops))
             n_real = len(ops)
             smap = list(range(n_real))
         try:
@@ -425,7 +441,7 @@ def replay_history(inst, H, mode, smap_kind, rng, book, out, hid, smap_override=
         if not post["synced"]:
             continue
         if inst.adapt:
-            units = units_for(inst, mode, ops)
+            units = pick_units(units_for(inst, mode, ops))
             smap = list(range(len(ops)))
         theta = real_vector(post["theta"], smap, units)
         try:
@@ -444,18 +460,33 @@ def replay_history(inst, H, mode, smap_kind, rng, book, out, hid, smap_override=
         uj, ur = circuit_json(obj.circuit, M), raw_gates(obj.circuit)
         n = max(fw, obj.circuit.width, 1)
         out["pairs"] += 1
-        if uj is None or fj is None:
+
+        def off_carrier():
+            """The recorded pair left the carrier of `mode` (correct code stays on it by the choice of units; a defect that
+            mixes parameters up need not).  Up to 4 qubits the pair is judged exactly on the next finer grids (probe
+            mode, M = 16, 32); otherwise structural identity mod 4pi is sufficient, else the sample is inconclusive."""
+            if n <= 4:
+                for M2 in (16, 32):
+                    if mode != "clifford" and M2 <= M:
+                        continue
+                    uj2 = circuit_json(obj.circuit, M2)
+                    fj2 = fresh_json(inst, ops, theta, M2)[0] if uj2 is not None else None
+                    if uj2 is not None and fj2 is not None:
+                        k2 = book.add(M2, {"kind": "equiv", "n": n, "mode": "probe", "a": uj2, "b": fj2}, None)
+                        ev("job", si, jkey=k2, jkind="equiv", action=a, escalated=M2)
+                        out["escalated"] = out.get("escalated", 0) + 1
+                        return
             if structural_equal_mod_4pi(ur, fr):
                 out["structural_ok"] += 1
             else:
                 out["inconclusive"] += 1
+
+        if uj is None or fj is None:
+            off_carrier()
             continue
         jmode = mode
         if mode == "clifford" and not (all(is_clifford_json(g) for g in uj) and all(is_clifford_json(g) for g in fj)):
-            if structural_equal_mod_4pi(ur, fr):
-                out["structural_ok"] += 1
-            else:
-                out["inconclusive"] += 1
+            off_carrier()
             continue
         key = book.add(M, {"kind": "equiv", "n": n, "mode": jmode, "a": uj, "b": fj}, None)
         ev("job", si, jkey=key, jkind="equiv", action=a, theta=[int(x) for x in post["theta"]])
@@ -582,7 +613,8 @@ def instances():
     # ---- UCCSD -------------------------------------------------------------------------------------------
     for mp, utd in enc:
         add("UCCSD/H2/%s/%d" % (mp, utd), "UCCSD", "closed", (lambda mp=mp, utd=utd: UCCSD(mol("H2"), mapping=mp, up_then_down=utd)),
-            zero_ref=True, ring="quick" if (mp, utd) == ("jw", False) else True, tier="quick" if (mp, utd) in enc[:5] else "thorough")
+            zero_ref=True, ring="quick" if (mp, utd) == ("jw", False) else True, tier="quick" if (mp, utd) in enc[:5] else "thorough",
+            reftype=((mp, utd) == ("jw", False)))
     add("UCCSD/H4/jw/0", "UCCSD", "closed", lambda: UCCSD(mol("H4")), zero_ref=True, big=True, weight=0.25)
     add("UCCSD/H4/bk/1", "UCCSD", "closed", lambda: UCCSD(mol("H4"), mapping="bk", up_then_down=True), zero_ref=True, big=True, tier="thorough", weight=0.15)
     add("UCCSD/H4/scbk/1", "UCCSD", "closed", lambda: UCCSD(mol("H4"), mapping="scbk", up_then_down=True), zero_ref=True, big=True, tier="thorough", weight=0.15)
@@ -591,9 +623,19 @@ def instances():
     add("UCCSD/H4_cation/jw/0", "UCCSD", "open", lambda: UCCSD(mol("H4_cation")), zero_ref=True, big=True, weight=0.25)
     add("UCCSD/H4_cation/bk/1", "UCCSD", "open", lambda: UCCSD(mol("H4_cation"), mapping="bk", up_then_down=True), zero_ref=True, big=True, tier="thorough", weight=0.15)
     add("UCCSD/H4_triplet/jw/1", "UCCSD", "open", lambda: UCCSD(mol("H4_triplet"), up_then_down=True), zero_ref=True, big=True, tier="thorough", weight=0.15)
-    add("UCCSD/H2_uhf/jw/0", "UCCSD", "uhf", lambda: UCCSD(mol("H2_uhf")), zero_ref=True, ring="quick")
+    # reference-type matrix of UCCSD (build_circuit and update_var_params each choose the excitation generator from
+    # spin / uhf): closed-shell RHF (above), UHF spin 0 with identical alpha/beta spaces, ROHF and UHF open shell
+    add("UCCSD/H2_uhf/jw/0", "UCCSD", "uhf", lambda: UCCSD(mol("H2_uhf")), zero_ref=True, ring="quick", reftype=True)
+    add("UCCSD/H2eq_uhf/jw/0", "UCCSD", "uhf", lambda: UCCSD(mol("H2eq_uhf")), zero_ref=True, ring="quick", reftype=True, weight=0.5)
+    add("UCCSD/H2_cation/jw/0", "UCCSD", "open", lambda: UCCSD(mol("H2_cation")), zero_ref=True, ring="quick", reftype=True, weight=0.5)
+    add("UCCSD/H2_anion/jw/0", "UCCSD", "open", lambda: UCCSD(mol("H2_anion")), zero_ref=True, ring="quick", reftype=True, weight=0.5)
+    add("UCCSD/H2_cation_uhf/jw/0", "UCCSD", "uhf-open", lambda: UCCSD(mol("H2_cation_uhf")), zero_ref=True, ring="quick", reftype=True, weight=0.5)
+    add("UCCSD/H2_anion_uhf/jw/0", "UCCSD", "uhf-open", lambda: UCCSD(mol("H2_anion_uhf")), zero_ref=True, ring="quick", reftype=True, weight=0.5)
+    add("UCCSD/H2_anion_uhf/bk/1", "UCCSD", "uhf-open", lambda: UCCSD(mol("H2_anion_uhf"), mapping="bk", up_then_down=True), zero_ref=True, ring=True,
+        reftype=True, tier="thorough")
+    add("UCCSD/H4_cation_uhf/jw/0", "UCCSD", "uhf-open", lambda: UCCSD(mol("H4_cation_uhf")), zero_ref=True, big=True, tier="thorough", weight=0.15)
     add("UCCSD/H2_uhf/bk/1", "UCCSD", "uhf", lambda: UCCSD(mol("H2_uhf"), mapping="bk", up_then_down=True), zero_ref=True, ring=True, tier="thorough")
-    add("UCCSD/H4_uhf/jw/0", "UCCSD", "uhf", lambda: UCCSD(mol("H4_uhf")), zero_ref=True, big=True, tier="thorough", weight=0.15)
+    add("UCCSD/H4_uhf/jw/0", "UCCSD", "uhf", lambda: UCCSD(mol("H4_uhf")), zero_ref=True, big=True, weight=0.2, reftype=True)
     # ---- UCC1 / UCC3 -------------------------------------------------------------------------------------
     add("UCC1", "RUCC", "ucc1", lambda: RUCC(1), zero_ref=True, ring=True)
     add("UCC3", "RUCC", "ucc3", lambda: RUCC(3), zero_ref=True, ring=True)
@@ -608,7 +650,10 @@ def instances():
     add("UpCCGSD/H2/jkmn/0/k2", "UpCCGSD", "k<=2", lambda: UpCCGSD(mol("H2"), mapping="jkmn", k=2), zero_ref=True, ring=True, tier="thorough")
     add("UpCCGSD/H2/scbk/1/k2", "UpCCGSD", "k<=2", lambda: UpCCGSD(mol("H2"), mapping="scbk", up_then_down=True, k=2), zero_ref=True, ring=True, tier="thorough")
     add("UpCCGSD/H4_3mo/jw/0/k2", "UpCCGSD", "k<=2", lambda: UpCCGSD(mol("H4_3mo"), k=2), zero_ref=True, weight=0.5, tier="thorough")
+    add("UpCCGSD/H2_cation/jw/0/k2", "UpCCGSD", "k<=2", lambda: UpCCGSD(mol("H2_cation"), k=2), zero_ref=True, ring=True, tier="thorough")
+    add("UpCCGSD/H4_cation/jw/0/k2", "UpCCGSD", "k<=2", lambda: UpCCGSD(mol("H4_cation"), k=2), zero_ref=True, big=True, tier="thorough", weight=0.15)
     # ---- UCCGD -------------------------------------------------------------------------------------------
+    add("UCCGD/H2_cation/jw/0", "UCCGD", "-", lambda: UCCGD(mol("H2_cation")), zero_ref=True, ring=True, tier="thorough")
     for mp, utd in enc[:4]:
         add("UCCGD/H2/%s/%d" % (mp, utd), "UCCGD", "-", (lambda mp=mp, utd=utd: UCCGD(mol("H2"), mapping=mp, up_then_down=utd)),
             zero_ref=True, ring="quick" if (mp, utd) == ("jw", False) else True,
@@ -625,6 +670,10 @@ def instances():
     # ---- QMF / QCC / ILC ---------------------------------------------------------------------------------
     add("QMF/H2/jw/0", "QMF", "-", lambda: QMF(mol("H2")), ring=True)
     add("QMF/H2/bk/1", "QMF", "-", lambda: QMF(mol("H2"), mapping="bk", up_then_down=True), tier="thorough")
+    add("QMF/H2_cation/jw/0", "QMF", "-", lambda: QMF(mol("H2_cation")), tier="thorough")
+    add("QCC/H4_cation/jw", "QCC", "-", _qcc_like("QCC", "H4_cation", "jw", True, "dis"), weight=0.5, tier="thorough")
+    add("ILC/H4_cation/jw", "ILC", "-", _qcc_like("ILC", "H4_cation", "jw", True, "acs"), weight=0.5, tier="thorough")
+    add("HEA/H2_cation/jw/real/L1", "HEA", "real", lambda: HEA(mol("H2_cation"), n_layers=1, rot_type="real"), tier="thorough")
     add("QMF/H4/jw/1", "QMF", "-", lambda: QMF(mol("H4"), up_then_down=True), tier="thorough", weight=0.5)
     add("QCC/H2/jw", "QCC", "-", _qcc_like("QCC", "H2", "jw", True, "dis"), ring="quick")
     add("QCC/H4/jw", "QCC", "-", _qcc_like("QCC", "H4", "jw", True, "dis"), weight=0.5)
@@ -652,6 +701,7 @@ def instances():
     # ---- ADAPT -------------------------------------------------------------------------------------------
     for nm, molname, mp, utd, tier, big in (("ADAPT/H2/jw/0", "H2", "jw", False, "quick", False), ("ADAPT/H2/bk/1", "H2", "bk", True, "quick", False),
                                             ("ADAPT/H2/jkmn/0", "H2", "jkmn", False, "thorough", False),
+                                            ("ADAPT/H2_cation/jw/0", "H2_cation", "jw", False, "thorough", False),
                                             ("ADAPT/H4/jw/0", "H4", "jw", False, "thorough", True)):
         mk, pool = _adapt(molname, mp, utd)
         inst = Inst(nm, "ADAPT", "-", mk, zero_ref=True, adapt=True, occ=(("jw", molname, utd) if mp == "jw" else None), ring=("quick" if nm == "ADAPT/H2/jw/0" else not big), big=big, tier=tier, weight=0.5 if big else 1.0)
@@ -842,39 +892,47 @@ def pair_cover(hists, rng, budget, level="sym"):
 
 
 def plan_for(inst, pools, chk, rng):
-    """(behaviour, mode, slot-map kind) triples replayed on this instance."""
+    """(behaviour, mode, slot-map kind[|unit mode]) triples replayed on this instance."""
     q = chk.quick
     w = inst.weight
     plan = []
+
+    def um(kind):
+        # one history in three uses one common unit for all parameters (see pick_units)
+        return kind + ("|uniform" if rng.random() < 1 / 3 else "")
+    ring_on = inst.ring and not os.environ.get("C07_NORING") and (not q or inst.ring == "quick")
     if inst.adapt:
         nA, nS = (int(40 * w), int(10 * w)) if q else (int(600 * w), int(120 * w))
         pa, ps = pools["AE"], pools["AS"]
         for i in pair_cover(pa, rng, nA):
-            plan.append((pa[i], "clifford", "id"))
+            plan.append((pa[i], "clifford", um("id")))
         for b in rng.sample(ps, min(nS, len(ps))):
-            plan.append((b, "clifford", "id"))
-        if inst.ring and not os.environ.get("C07_NORING") and (not q or inst.ring == "quick"):
+            plan.append((b, "clifford", um("id")))
+        if ring_on:
             for b in rng.sample(pa, min(len(pa), 2 if q else 12)):
-                plan.append((b, "probe", "id"))
+                plan.append((b, "probe", um("id")))
         return plan
     n1, n2, n3, n4 = (int(24 * w), int(16 * w), max(1, int(3 * w)), int(24 * w)) if q else (int(400 * w), int(300 * w), int(60 * w), int(200 * w))
     p1, p2, p3, p4 = pools["E1"], pools["E2"], pools["SIM"], pools["P3"]
     kinds = ["mod", "block", "rand"]
     for i in pair_cover(p1, rng, n1):
-        plan.append((p1[i], "clifford", "mod"))
+        plan.append((p1[i], "clifford", um("mod")))
     if not q:
         for b in rng.sample(p1, min(len(p1), int(200 * w))):
-            plan.append((b, "clifford", "mod"))
+            plan.append((b, "clifford", um("mod")))
     for i in pair_cover(p2, rng, n2):
-        plan.append((p2[i], "clifford", rng.choice(kinds)))
+        plan.append((p2[i], "clifford", um(rng.choice(kinds))))
     for b in rng.sample(p3, min(n3, len(p3))):
-        plan.append((b, "clifford", rng.choice(kinds)))
+        plan.append((b, "clifford", um(rng.choice(kinds))))
     for i in pair_cover(p4, rng, n4, level="pattern"):
-        plan.append((p4[i], "clifford", rng.choice(["mod", "mod", "block", "rand"])))
-    if inst.ring and not os.environ.get("C07_NORING") and (not q or inst.ring == "quick"):
-        nr = (2 if q else 12)
-        for b in rng.sample(p2, min(nr, len(p2))):
-            plan.append((b, "probe", rng.choice(kinds)))
+        plan.append((p4[i], "clifford", um(rng.choice(["mod", "mod", "block", "rand"]))))
+    if ring_on:
+        # generic (non-Clifford) grid parameters, exact ring states; instances with reference-type dependent code paths
+        # (inst.reftype) get more of them and three slots, so that up to three parameter groups carry different values
+        nr = ((6 if inst.reftype else 2) if q else (24 if inst.reftype else 12))
+        src = [b for b in p4 if any(act == "Update" for act, _, _ in b.sig)] if inst.reftype else p2
+        for b in rng.sample(src, min(nr, len(src))):
+            plan.append((b, "probe", um("mod" if inst.reftype else rng.choice(kinds))))
         if not q and inst.ring == "quick":
             for b in rng.sample(p1, min(2, len(p1))):
                 plan.append((b, "ring", "mod"))
@@ -1141,7 +1199,7 @@ def run(chk):
              seeded_defect_flagged_steps=bfam["control"]["bad"], seeded_defect_steps=bfam["control"]["judged"])
     # accounting
     chk.add_eval(book.n_refs, nontrivial=len(book.payloads))
-    tot = {k: sum(o[k] for o in outs) for k in ("steps", "pairs", "structural_ok", "inconclusive", "skipped_bad", "rejected_calls", "histories")}
+    tot = {k: sum(o.get(k, 0) for o in outs) for k in ("steps", "pairs", "structural_ok", "inconclusive", "escalated", "skipped_bad", "rejected_calls", "histories")}
     chk.inconclusive += tot["inconclusive"]
     unavailable = {o["name"]: o["unavailable"] for o in outs if o["unavailable"]}
     chk.part("G_replay", instances=len(insts), unavailable=unavailable, distinct_tlc_jobs=len(book.payloads), job_references=book.n_refs,
